@@ -131,6 +131,42 @@ TRACE_STOP = feat({'self_fields': TRACE_FIELDS, 'dynamic': ('_old_trace', '_old_
                                " and not G.settrace_wrapped)",
                                "implies(self.donothing, G.trace == old(G.trace) and G.thr_trace == old(G.thr_trace))"]})
 
+def trace_base_init(E, st, node, k):
+    me = st.lookup('self')
+    rec = st.heap[me.rid]
+    f = dict(rec.fields)
+    f['donothing'] = fresh_val(('bool',), 'donothing', st)       # trace.Trace: donothing = not (count or trace ...)
+    st.heap[me.rid] = HRec(rec.cls, f, rec.present)
+    return k(st, NONE)
+trace_base_init.raw = True
+trace_base_init.__name__ = 'trace.Trace.__init__(self, **kw): sets donothing from the keywords (stdlib)'
+
+TRACE_INIT = feat({'self_fields': TRACE_FIELDS, 'dynamic': ('_old_trace', '_old_threading_trace'),
+                   'params': {'directories': 'Any'}, 'requires': [],
+                   'modifies': ['self.started', 'self.donothing'],
+                   'ensures': ["not self.started"],
+                   'rules': {'trace.Trace.__init__': trace_base_init, 'TestIgnore': 'fresh:Any'},
+                   'skip_stmts': {'self.ignore = TestIgnore(directories)': 'the ignore filter of the tracer (which files are '
+                                  'counted) is not interpreter-global state'}})
+
+COV_FIELDS = {'tracer': 'Rec[coverage.TestTrace]', 'directory': 'Any', 'runner': 'Rec[CovRunner]'}
+SAVED = ("implies(not self.tracer.donothing, hasattr(self.tracer, '_old_trace') and hasattr(self.tracer, '_old_threading_trace')"
+         " and self.tracer._old_trace == old(G.trace) and self.tracer._old_threading_trace == old(G.thr_trace))")
+COV_SETUP = feat({'self_fields': COV_FIELDS, 'requires': ["not G.settrace_wrapped"],
+                  'modifies': ['self.tracer', 'self.directory', 'G.trace', 'G.thr_trace', 'G.settrace_wrapped'],
+                  # --coverage: the tracer is started and remembers exactly the hooks that were installed before the run
+                  'ensures': ["self.tracer.started", SAVED],
+                  'rules': {'os.getcwd': 'fresh:Str', 'os.path.join': 'pure:Str', 'test_dirs': 'fresh:Any'}})
+COV_TEARDOWN = feat({'self_fields': COV_FIELDS,
+                     'requires': ["self.tracer.started",
+                                  "implies(not self.tracer.donothing, hasattr(self.tracer, '_old_trace') and"
+                                  " hasattr(self.tracer, '_old_threading_trace'))"],
+                     'modifies': ['self.tracer.started', 'G.trace', 'G.thr_trace', 'G.settrace_wrapped'],
+                     # ... and early_teardown puts exactly those back (TestTrace.stop)
+                     'ensures': ["not self.tracer.started",
+                                 "implies(not self.tracer.donothing, G.trace == self.tracer._old_trace and"
+                                 " G.thr_trace == self.tracer._old_threading_trace and not G.settrace_wrapped)"]})
+
 # ------------------------------------------------------------------ Runner.run: the try/finally around the test phase
 RUN_GHOST = {'gs': 'Set[Feature]', 'early': 'Set[Feature]', 'torn': 'Set[Feature]', 'testing': 'bool'}
 ALL_TORN = ("forall(q, Int, implies(0 <= q and q < len(self.features), self.features[q] in G.early and"
@@ -275,4 +311,13 @@ def register(E):
     E.add_contract('tb_format.Traceback.global_teardown', TB_TEARDOWN)
     E.add_contract('coverage.TestTrace.start', TRACE_START)
     E.add_contract('coverage.TestTrace.stop', TRACE_STOP)
+    E.add_contract('coverage.TestTrace.__init__', TRACE_INIT)
+    E.records['CovOptions'] = {'coverage': 'Str', 'output': 'Output'}
+    E.records['CovRunner'] = {'options': 'Rec[CovOptions]'}
+    E.records['coverage.TestTrace'] = dict(TRACE_FIELDS)
+    E.record_dynamic['coverage.TestTrace'] = ('_old_trace', '_old_threading_trace')
+    E.records.setdefault('coverage.Coverage', {})
+    E.globals['coverage.test_dirs'] = lambda eng, st: VFunc('handler', call=lambda eng2, st2, node, args, kws, k: k(st2, fresh_val(('obj', 'Any'), 'dirs', st2)))
+    E.add_contract('coverage.Coverage.global_setup', COV_SETUP)
+    E.add_contract('coverage.Coverage.early_teardown', COV_TEARDOWN)
     E.add_contract('runner.Runner.run', RUN)
